@@ -544,6 +544,14 @@ def h_iter(ctx, cfg):
                    filename="f", first_line_number=1, name="rep", stacksize=1, _additional_args=(Constant(lb, 5),))
     got = list(rep)
     ctx.prove("iter.a_nested_code_object_loaded_by_several_instructions_is_yielded_once", z3.BoolVal(len(got) == 2 and got[0] is la and got[1] is lb), detail=repr([g.name for g in got]))
+    # two different nested code objects whose hashes collide (they differ only in the constants -1 / -2, which CPython hashes alike): both are yielded
+    def leaf_with(c):
+        return CodeData(blocks=((Instruction("LOAD_CONST", Constant(c), line_number=1), Instruction("RETURN_VALUE", line_number=1)),), filename="f", first_line_number=7, name="<lambda>", stacksize=1)
+    h1, h2 = leaf_with(-1), leaf_with(-2)
+    col = CodeData(blocks=((Instruction("L", Constant(h1), line_number=1), Instruction("L", Constant(h2), line_number=1)),), filename="f", first_line_number=1, name="col", stacksize=1,
+                   _additional_args=(Constant(leaf_with((-1, "x")), 4), Constant(leaf_with((-2, "x")), 5)))
+    got = list(col)
+    ctx.prove("iter.distinct_nested_code_objects_with_equal_hashes_are_all_yielded", z3.BoolVal(hash(h1) == hash(h2) and len(got) == 4 and got[0] is h1 and got[1] is h2), detail=repr([g.blocks[0][0].arg for g in got]))
     shapes = [tuple(tuple(b) for b in s) for s in [("C",), ("N",), ("CC",), ("nC", "i"), ("C", "C"), ("iN", "Cn"), ("CC", "CC")]]
     n = 0
     for shape in shapes:
